@@ -48,16 +48,17 @@ L2_Partition ==
 
 \* face aggregation: L2 = L1 for every argsort outcome, reduction, row and denominator
 L2_FaceAgg ==
-    /\ \A o \in AscendingOrders(N) : \A op \in Ops : \A r \in 1..4 :
-          AlgFaceAgg(T, o, rows[r], op, 1) = SpecAgg(mesh, rows[r], op, 1)
-    /\ \A op \in Ops : \A r \in 1..4 :
-          AlgFaceAgg(T, StableOrder(N), rows[r], op, 2) = SpecAgg(mesh, rows[r], op, 2)
+    /\ \A o \in AscendingOrders(N) :
+          LET g == AlgFaceGather(T, o)                  \* gathered once per partitioning, as in the code
+          IN \A op \in Ops : \A r \in 1..4 : AlgFaceAggFrom(g, rows[r], op, 1) = SpecAgg(mesh, rows[r], op, 1)
+    /\ LET g == AlgFaceGather(T, StableOrder(N))
+       IN \A op \in Ops : \A r \in 1..4 : AlgFaceAggFrom(g, rows[r], op, 2) = SpecAgg(mesh, rows[r], op, 2)
 
 \* a wider table (more padding) changes nothing
 PaddingIrrelevant ==
     LET T2 == Stored(mesh, W + 2)
-    IN \A op \in Ops : \A r \in 1..4 :
-        AlgFaceAgg(T2, StableOrder(AlgNodesPerFace(T2)), rows[r], op, 1) = SpecAgg(mesh, rows[r], op, 1)
+        g  == AlgFaceGather(T2, StableOrder(AlgNodesPerFace(T2)))
+    IN \A op \in Ops : \A r \in 1..4 : AlgFaceAggFrom(g, rows[r], op, 1) = SpecAgg(mesh, rows[r], op, 1)
 
 \* edge aggregation on the derived edge table, and independence of the order of the two ends
 L2_EdgeAgg ==
